@@ -323,12 +323,27 @@ class Prop:
         """An exception that comes out of the implementation (a pylife frame is on the traceback) on an input
         of the property's quantifier is a failure of the property on that input, not an infrastructure
         problem; an exception that never touched pylife is a bug of the harness and is re-raised (exit 2)."""
+        self._known_seen = []
         try:
-            return self.oracle(case)
+            res = self.oracle(case)
         except Exception as e:
             if _involves_implementation(e):
                 return (f"the implementation raises {type(e).__name__}: {str(e)[:300]}", "implementation-raises")
             raise
+        if res is None and self._known_seen:
+            return self._known_seen[0]          # only known findings on this case: reported as such, counted by run_check
+        return res
+
+    def known(self, klass, desc):
+        """Oracle helper.  True when `klass` is an OPEN known finding: the hit is noted and the oracle goes on with its later
+        clauses (a known finding must not hide another failure on the same case); False otherwise - the oracle then returns
+        (desc, klass).  Usage:  if not self.known(k, d): return (d, k)"""
+        if klass in getattr(self, "known_classes", ()):
+            if not hasattr(self, "_known_seen"):
+                self._known_seen = []
+            self._known_seen.append((desc, klass))
+            return True
+        return False
 
     def _impl_safe(self, case):
         try:
@@ -340,8 +355,9 @@ class Prop:
 
 
 def write_replay(pid, seed, payload):
-    os.makedirs(os.path.join(VERIF, "replays"), exist_ok=True)
-    path = os.path.join("replays", f"{pid}-{seed}.json")
+    base = os.environ.get("VERIF_REPLAY_DIR") or "replays"      # relative to /verif unless absolute
+    os.makedirs(os.path.join(VERIF, base), exist_ok=True)
+    path = os.path.join(base, f"{pid}-{seed}.json")
     with open(os.path.join(VERIF, path), "w") as f:
         json.dump(payload, f, indent=1, default=str)
     return path
@@ -447,6 +463,7 @@ def run_check(prop, tier, seed, replay=None):
     # ---- 4. direct property oracle on the implementation
     known = load_known(pid)
     known_classes = {e["class"] for e in known if e.get("status") == "open"}
+    prop.known_classes = known_classes          # before the workers fork: Prop.known() consults it
     oracle_fail = []
     known_hits = {}
     n_oracle = 0
